@@ -21,7 +21,8 @@ ASSUMPTIONS = [
     'messages of injected exceptions are unique and differ from the nominal message in their first four characters',
 ]
 
-TB_KINDS_ALL = ['tb', 'tb', 'tbstack', 'tbbare', 'tbell', 'tbwrongmsg', 'tbwrongtype', 'tbdetail']
+TB_KINDS_ALL = ['tb', 'tb', 'tbstack', 'tbbare', 'tbell', 'tbwrongmsg', 'tbwrongtype', 'tbdetail', 'tbdots', 'tbdots',
+                'tbdotssuffix', 'tbdotsonly']
 FLAGSETS = [[], [], [], [['+', 'IGNORE_EXCEPTION_DETAIL', None]], [['-', 'ELLIPSIS', None]],
             [['+', 'IGNORE_WANT', None]], [['+', 'IGNORE_EXCEPTION_DETAIL', None], ['-', 'ELLIPSIS', None]]]
 
